@@ -347,3 +347,26 @@ func TestChooseTable(t *testing.T) {
 		t.Error("KeyFormatOf")
 	}
 }
+
+func TestParseServerRoundTrip(t *testing.T) {
+	m, err := ParseServer(Failure([]string{"a", "b"}, true), "none")
+	if err != nil || m.Kind != "failure" || !m.Partial || !reflect.DeepEqual(m.Methods, []string{"a", "b"}) {
+		t.Fatalf("%+v %v", m, err)
+	}
+	m, err = ParseServer(unhex(t, "33 00000000 00"), "none")
+	if err != nil || m.Methods != nil || m.Partial {
+		t.Fatalf("%+v %v", m, err)
+	}
+	m, err = ParseServer(unhex(t, "3c 00000007 7373682d727361 00000001 4b"), "publickey")
+	if err != nil || m.Kind != "pkok" || m.Algo != "ssh-rsa" || string(m.KeyBlob) != "K" {
+		t.Fatalf("%+v %v", m, err)
+	}
+	m, _ = ParseServer(unhex(t, "3c 00000001 6e 00000000 00000000 00000000"), "keyboard-interactive")
+	if m.Kind != "inforeq" {
+		t.Fatalf("%+v", m)
+	}
+	m, err = ParseServer(unhex(t, "07 00000001 0000000f 7365727665722d7369672d616c6773 00000003 612c62"), "")
+	if err != nil || m.Kind != "extinfo" || m.Exts[0] != [2]string{"server-sig-algs", "a,b"} {
+		t.Fatalf("%+v %v", m, err)
+	}
+}
